@@ -81,10 +81,13 @@ def deltas(big=True):
 
 def latin1_text(max_size=40):
     alpha = st.one_of(st.characters(min_codepoint=0x20, max_codepoint=0x7E),
-                      st.sampled_from(['\x00', '\x7f', '\x80', '\xff', '\xe9', "'", '"', '\\', '\n', ' ']),
+                      st.sampled_from(['\x00', '\x7f', '\x80', '\xff', '\xe9', "'", '"', '\\', '\n', ' ', '{', '}', '%']),
                       st.characters(min_codepoint=0, max_codepoint=255))
     sizes = st.one_of(st.sampled_from([0, 1, 2]), st.integers(0, max_size))
-    return sizes.flatmap(lambda n: st.lists(alpha, min_size=n, max_size=n)).map(''.join)
+    base = sizes.flatmap(lambda n: st.lists(alpha, min_size=n, max_size=n)).map(''.join)
+    # C strings with their terminator, NUL padding, format-string look-alikes
+    return st.one_of(base, base, base, base.map(lambda t: t + '\x00'), st.sampled_from(['\x00', 'ab\x00\x00', '{0}', '{verse 1}',
+                                                                                      'intro}', '{{x}}', '%s %d']))
 
 
 def _edge_int(lo, hi):
